@@ -2,6 +2,7 @@ import Rbql.Model.Basic
 import Rbql.Model.Csv
 import Rbql.Model.ReaderPy
 import Rbql.Model.ReaderJs
+import Rbql.Model.Writer
 import Driver.Codec
 open Rbql Driver
 
@@ -37,6 +38,20 @@ def encRead (r : Except ReadErr ReadResult) : String :=
   | .error (.rfcQuote nr nl) => s!"err rfc {nr} {nl}"
   | .ok r => s!"ok {encOptList r.header} {encTable r.records} {encWarns r.warnings}"
 
+def decCell (s : String) : Option Str := if s == "N" then none else some (decStr s)
+def decCells (s : String) : List (Option Str) := if s == "!" then [] else (s.splitOn ",").map decCell
+def decCellTable (s : String) : List (List (Option Str)) := if s == "~" then [] else (s.splitOn ";").map decCells
+
+def encWrite (r : Except WriteErr WState) : String :=
+  match r with
+  | .error .mono => "err mono"
+  | .error (.width a b) => s!"err width {a} {b}"
+  | .ok st => s!"ok {encStr st.out} none={encBool st.noneSeen} delim={encBool st.delimInSimple}"
+
+def doWrite (pol js d linesep hdr table : String) : Except WriteErr WState :=
+  let c : WCfg := { delim := decStr d, policy := decPolicy pol, lineSep := decStr linesep, js := decBool js }
+  writeAll c (if hdr == "N" then none else some (decList (hdr.drop 1).toString)) (decCellTable table)
+
 def step (line : String) : String :=
   match line.splitOn " " with
   | ["split", pol, pres, d, s] =>
@@ -66,6 +81,20 @@ def step (line : String) : String :=
   | ["readjsbulk", pol, enc, hdr, modi, d, comment, text] =>
     let c := mkCfg pol enc "0" d comment
     encRead (jsResult (jsBulk c (decStr text)) (decBool hdr) (decMod modi))
+  | ["write", pol, js, d, linesep, hdr, table] => encWrite (doWrite pol js d linesep hdr table)
+  | ["roundtrip", pol, js, enc, d, linesep, table] =>
+    let w := doWrite pol js d linesep "N" table
+    match w with
+    | .error _ => encWrite w
+    | .ok st =>
+      let text := st.out
+      let rd :=
+        if decBool js then
+          encRead (jsResult (jsStream (mkCfg pol enc "0" d "~") (if text.isEmpty then [] else [text])) false none)
+        else
+          let t := if enc == "none" then text else univNewlines text
+          encRead (readAll (mkCfg pol enc (toString (t.length + 1)) d "~") false none (if t.isEmpty then [] else [t]))
+      s!"{encWrite w} | {rd}"
   | ["readboth", pol, enc, hdr, modi, d, comment, text] =>
     -- one file, both readers: Python (through TextIOWrapper) and JS must deliver the same result
     let t := decStr text
